@@ -34,9 +34,10 @@ def fsc_landscape(
                 sigma0 = backend.sqrt(
                     backend.sum_labels(pw0, labels=labels, index=index)
                 )
-                fsc = backend.sum_labels(cov, labels=labels, index=index) / (
-                    sigma0 * sigma1
-                )
+                denom = sigma0 * sigma1
+                # shells without power (e.g. constant input) are uncorrelated, not NaN
+                denom[denom == 0] = np.inf
+                fsc = backend.sum_labels(cov, labels=labels, index=index) / denom
                 out[iz, iy, ix] = float(fsc.mean())
     return out
 
